@@ -819,6 +819,22 @@ theorem accepted_calls_noninterfere (prog : List Item) (hacc : acceptProg prog =
   · simp only [finished, hp]
   · simp only [acctOf, hp]
 
+/-- **the solo result is final**: once call `i` has returned in its solo run, any
+further steps change nothing — so "the same number of steps alone" in T5 is
+"the complete single-threaded call" as soon as the concurrent call has
+finished (`finished conc i = finished solo i`). -/
+theorem solo_result_final (prog : List Item) (sem : Sem) (i : ι) (m0 : Store ι) (n k : Nat)
+    (hfin : finished (runSolo (List.replicate n (mstep prog sem i)) m0) i = true) :
+    runSolo (List.replicate (n + k) (mstep prog sem i)) m0
+      = runSolo (List.replicate n (mstep prog sem i)) m0 := by
+  rw [← List.replicate_append_replicate, runSolo_append]
+  simp only [finished] at hfin
+  cases hs : runSolo (List.replicate n (mstep prog sem i)) m0 (.priv i) with
+  | val v => rw [hs] at hfin; cases hfin
+  | priv s =>
+    rw [hs] at hfin
+    exact runSolo_finished prog sem i _ s hs (by simpa using hfin) k
+
 /-- **T5, accounting.** If every call balances its host values when run alone
 (C03), the calls balance under every schedule (each call's counter is private
 state; the global counter of T1 `accounting_balances` is their sum). -/
@@ -972,14 +988,16 @@ end T5
 The list of `lir::Instruction` kinds, their fields (name, type class) and the
 memory / call operations the machine-code generator emits for each kind are
 regenerated from `src/lir/mod.rs` and `src/codegen/mod.rs` (`Generated/C12Instr`).
-`Classify.shapeOf` / `Classify.roles` are exhaustive matches over the generated
-`Kind`, so a new kind does not compile until it is classified. -/
+`Classify.shapeOf` / `Classify.roles` send every kind they do not list to
+`unclassified`, which `instr_kinds_classified` forbids: a new kind breaks that
+obligation until it is classified. -/
 
 section T6
 open Lir Classify Gen.C12Instr
 
-/-- the generated field list of every kind is the classified one (names, order)
-and every field that can carry a variable has a role fitting its type -/
+/-- every generated kind is classified; its generated field list is the
+classified one (names, order) and every field that can carry a variable has a
+role fitting its type -/
 theorem instr_kinds_classified : kinds.all kindClassified = true := by decide
 
 /-- `kinds` lists every constructor of the generated enum -/
